@@ -115,4 +115,14 @@ CHECKS = {
         technique='exhaustive component grid (scheme x slashes x userinfo x host x port x tail, two deploy configs) + Hypothesis grammar-aware mutation (+ atheris in thorough); one-directional differential against an independent WHATWG-style URL resolver',
         text='1.15M candidate next URLs per quick run: whenever validate_next_page_url accepts, the independently resolved scheme must be http(s)/relative and the host one of the four service hosts.',
         note='Trusts the resolver in checks/c29.py (IDNA approximated by NFKC + lower-casing) and a fixed deploy config. Found and fixed: non-http schemes were accepted.'),
+    'C17': dict(
+        level='exploration',
+        technique='Hypothesis-generated pipelines (programs as data) built through the public Batch DSL and executed by the real LocalBackend (bash subprocesses); execution log checked against a topological-order / skip-propagation model',
+        text='~350 pipelines per quick run with creation order unrelated to the DAG, explicit and resource-induced edges, cycles and failing commands: job ids and the run log respect dependencies, cycles are rejected before anything runs, exactly the documented jobs are skipped.',
+        note='Real subprocesses, no docker image; the skip rule is the LocalBackend rule (direct dependency failed or skipped, always_run shields).'),
+    'C18': dict(
+        level='exploration',
+        technique='Hypothesis-generated pipelines submitted through the real ServiceBackend._async_run against a recording fake batch client; harness-owned token/uid draws make path collisions searchable; known defects excluded by construction in guarded shards',
+        text='~16k pipelines per quick run: producer upload location == consumer download location, consumer is a child of the producer, every reference replaced by its quoted local path and nothing else, distinct resources have distinct paths.',
+        note='ServiceBackend is instantiated without network (fake client/fs); five known findings are listed (four unguarded shards re-find them, twelve guarded shards search behind them); one defect (job token dedup) was fixed.'),
 }
